@@ -366,13 +366,25 @@ let fam_c08 tier r =
       { sc_world = world_with [ b_exit 0 ];
         sc_ops = [ new_ (); start ~opts:{ default_options with o_fork = true; o_deadline = z 50; o_stop = stop3 (sa 3 (-1)) (sa 0 0) (sa 0 0) }
                      ~script:[ a_sleep 300; a_exit 4 ] None; wait t; wait (-2); destroy () ] }) [ 0; 30; -2 ] in
+  (* a start that fails (with a deadline in its options) followed by a start of the same handle with
+     another deadline or none: only the successful start's deadline counts *)
+  let restart = List.concat_map (fun d1 ->
+      List.concat_map (fun d2 ->
+          List.map (fun bad ->
+              { sc_world = world_with [ [ a_sleep 120; a_exit 5 ] ];
+                sc_ops = [ new_ (); start ~opts:{ default_options with o_deadline = z d1 } bad; sleep 40;
+                           start ~opts:{ default_options with o_deadline = z d2; o_stop = stop3 (sa 3 (-1)) (sa 0 0) (sa 0 0) } (c 0);
+                           sleep 10; poll ~t:30 [ (0, 2 lor 8) ]; wait (-2); wait 60; wait 500; destroy () ] })
+            [ argv [ "nonexistent" ]; argv [ "/w" ]; Some [] ])
+        [ 0; 25; 300 ]) [ 20; 200 ] in
   ignore r;
   let flt = List.concat_map (faults_in_ops ~lat:20 ~errnos:[ 4 ] (function OS (SWait _) | OS (SPoll _) -> true | _ -> false))
       (List.filteri (fun j _ -> j mod 9 = 0) waits @ List.filteri (fun j _ -> j mod 41 = 0) grid) in
   [ { name = "C08/source-layouts-x-timeouts-x-activity"; exhaustive = true; scs = grid };
     { name = "C08/interrupted-waits-and-polls"; exhaustive = true; scs = flt };
     { name = "C08/waits"; exhaustive = true; scs = waits };
-    { name = "C08/fork-mode"; exhaustive = true; scs = forkmode } ]
+    { name = "C08/fork-mode"; exhaustive = true; scs = forkmode };
+    { name = "C08/failed-start-then-restart"; exhaustive = true; scs = restart } ]
 
 (* ---- C09: poll truthfulness ---- *)
 let fam_c09 tier r =
@@ -481,7 +493,19 @@ let fam_c11 tier r =
             sc_ops = [ new_ (); new_ ~h:1 (); start (c 0); OS (SUserRlimit (z l2)); OS (SUserOpen (z (l1 + 3), z 900, cx));
                        OS (SUserOpen (z (l2 - 1), z 901, false)); start ~h:1 (c 1); pid ~h:1 (); destroy (); destroy ~h:1 () ] })
         [ false; true ]) [ (16, 64); (24, 40); (64, 256) ] in
+  (* descriptors handed over by the caller (HANDLE / FILE redirects, with and without close-on-exec)
+     and fork mode (no exec follows: close-on-exec does not help), next to a sibling's pipes *)
+  let kinds = [ rd 0; rd ~h:5 5; rd ~f:4 6; rd 3 ] in
+  let user = List.concat_map (fun ri -> List.concat_map (fun ro -> List.concat_map (fun re ->
+      List.map (fun fork ->
+          let opts = { default_options with o_in = ri; o_out = ro; o_err = re; o_fork = fork } in
+          { sc_world = world_with ~fds:user_fds ~files:user_files [ [ a_sleep 10; a_exit 0 ]; [ a_sleep 10; a_exit 0 ] ];
+            sc_ops = [ new_ (); new_ ~h:1 (); start ~h:1 (c 1);
+                       (if fork then start ~opts ~script:[ a_sleep 10; a_exit 0 ] None else start ~opts (c 0));
+                       pid (); sleep 30; wait 100; destroy (); destroy ~h:1 () ] })
+        [ false; true ]) kinds) kinds) kinds in
   [ { name = "C11/random-descriptor-tables"; exhaustive = false; scs = List.init n one };
+    { name = "C11/caller-handles-and-fork-mode"; exhaustive = true; scs = user };
     { name = "C11/limit-raised-between-starts"; exhaustive = true; scs = raised };
     { name = "C11/huge-limit"; exhaustive = true; scs = huge } ]
 
@@ -643,7 +667,20 @@ let fam_c17 tier r =
                     sc_ops = [ new_ (); start ~opts:{ default_options with o_input_data = true; o_input_size = z size; o_nonblocking = nb } (c 0); pid (); sleep 100; wait 1000; destroy () ] })
                 [ ("eager", [ a_readall 0; a_readall 0; a_readall 0; a_readall 0; a_exit 0 ]); ("never", [ a_sleep 50; a_exit 0 ]) ])
             [ false; true ]) [ 1; 4096; 8192; 8193; 32768; 65536 ]) [ 4096; 8192; 16384 ] in
+  (* every choice of which streams are pipes (a stream that is not a pipe is discarded): the option
+     must reach each pipe that exists, whichever they are *)
+  let layouts = List.concat_map (fun (ti, to_, te) ->
+      List.concat_map (fun nb ->
+          List.map (fun (_, script) ->
+              let opts = { default_options with o_nonblocking = nb; o_in = rd ti; o_out = rd to_; o_err = rd te } in
+              { sc_world = world_with [ script ];
+                sc_ops = [ new_ (); start ~opts (c 0); read 1 10; read 2 10; write 70000; write 70000; read 2 5; read 1 5; sleep 30;
+                           read 1 10; read 2 10; close 0; sleep 200; wait 0; destroy () ] })
+            [ ("idle", [ a_sleep 150; a_exit 0 ]); ("err-writer", [ a_sleep 20; a_write 2 5; a_sleep 100; a_exit 0 ]) ])
+        [ true; false ])
+      [ (1, 1, 1); (1, 1, 3); (1, 3, 1); (1, 3, 3); (3, 1, 1); (3, 1, 3); (3, 3, 1); (3, 3, 3); (3, 3, 0); (0, 0, 1); (2, 2, 1); (3, 1, 4) ] in
   [ { name = "C17/pipe-states-x-sizes"; exhaustive = true; scs = grid };
+    { name = "C17/which-streams-are-pipes"; exhaustive = true; scs = layouts };
     { name = "C17/start-up-input-with-small-pipes"; exhaustive = true; scs = small };
     { name = "C17/start-up-input-sizes"; exhaustive = true; scs = input } ]
 
